@@ -10,6 +10,7 @@ ids are arbitrary integers and may even repeat (cover is stated on multisets).
 import KafkaVerif.Lemmas.GroupBalancer
 import KafkaVerif.Lemmas.RackAffinity
 import KafkaVerif.Gen.GroupBalancerSel
+import KafkaVerif.Lemmas.GroupGlue
 
 namespace KV.C14
 open KV.GroupBalancer KV.Spec.GroupAssign
@@ -336,5 +337,135 @@ theorem rack_cover_needs_topics_once_counterexample :
       rackAssign ms ps (fun _ => [1]) (fun _ => [1]) 0 7 = some [0] ∧
       ¬ CoverAt ms ps (rackAsg ms ps (fun _ => [1]) (fun _ => [1])) 0 := by
   refine ⟨by decide, by decide, ⟨by decide, by decide⟩, by decide, by decide⟩
+
+/-! ## 6. The leader glue: what every member RECEIVES is its own entry of the balancer's result
+
+`joinGroup → makeMemberProtocolMetadata → AssignGroups → makeSyncGroupRequestV0 → (coordinator forwards bytes) →
+syncGroup`.  Model: Model/GroupGlue.lean.  `A` is the Go map `GroupMemberAssignments` in whatever order `range`
+yields it, `ρ` the iteration order of the per-member `topics32` map inside `groupAssignment.writeTo`; Go maps have
+distinct keys, which is the only hypothesis. -/
+section Glue
+open KV.GroupGlue
+
+/-- the members the leader's balancer sees are the members' own configurations (topics in listing order, rack) -/
+theorem glue_members (cfgs : List (Nat × List Nat × Nat)) :
+    membersOfJoin (cfgs.map fun c => (c.1, metadataOfConfig c.2.1 c.2.2)) = cfgs := by
+  unfold membersOfJoin metadataOfConfig
+  rw [List.map_map]
+  conv => rhs; rw [← List.map_id cfgs]
+  rfl
+
+/-- decode ∘ encode per member = that member's entry of the assignment map (partition ids as int32), for every
+iteration order of the two maps; a member without an entry receives nothing: no entry leaks between members -/
+theorem glue_preserves (ρ : TopicMap → TopicMap) (hρ : ∀ l, (ρ l).Perm l) (A : Assignments)
+    (hin : ∀ e ∈ A, (keys e.2).Nodup) (id t : Nat) :
+    mapGet t (received ρ A id) =
+      match A.find? (fun e => e.1 == id) with
+      | some e => (mapGet t e.2).map (·.map toInt32)
+      | none => none :=
+  received_get ρ hρ A hin id t
+
+theorem glue_no_leak (ρ : TopicMap → TopicMap) (A : Assignments) (id : Nat) (h : ∀ e ∈ A, e.1 ≠ id) :
+    received ρ A id = [] := by
+  unfold received syncRequest
+  have : (A.map fun e => (e.1, encodeAssignment ρ (toTopics32 e.2))).find? (fun e => e.1 == id) = none := by
+    rw [List.find?_eq_none]
+    intro e he
+    obtain ⟨x, hx, rfl⟩ := List.mem_map.mp he
+    simpa using h x hx
+  rw [this]
+
+/-- the result does not depend on the order in which `range memberAssignments` yields the members -/
+theorem glue_order_independent (ρ ρ' : TopicMap → TopicMap) (hρ : ∀ l, (ρ l).Perm l) (hρ' : ∀ l, (ρ' l).Perm l)
+    (A A' : Assignments) (hp : A.Perm A') (hids : (A.map (·.1)).Nodup) (hin : ∀ e ∈ A, (keys e.2).Nodup) (id t : Nat) :
+    mapGet t (received ρ A id) = mapGet t (received ρ' A' id) := by
+  rw [glue_preserves ρ hρ A hin, glue_preserves ρ' hρ' A' (fun e he => hin e (hp.mem_iff.mpr he)),
+    find_key_perm id A A' hp hids]
+
+example : (keys ([(0, [1, 2]), (1, [5])] : TopicMap)).Nodup ∧ ∀ l : TopicMap, l.reverse.Perm l :=
+  ⟨by decide, List.reverse_perm⟩
+example : mapGet 1 (received List.reverse [(7, [(0, [1, 2]), (1, [5])]), (8, [(0, [0])])] 7) = some [5] ∧
+    received List.reverse [(7, [(0, [1, 2]), (1, [5])]), (8, [(0, [0])])] 8 = [(0, [0])] ∧
+    received List.reverse [(7, [(0, [1, 2]), (1, [5])]), (8, [(0, [0])])] 9 = [] := by decide
+
+/-- end to end: for partition ids that fit int32, what the members receive is the balancer's assignment function
+on the members `ids` and topics `ts` of the map, and empty elsewhere -/
+theorem glue_delivers (ρ : TopicMap → TopicMap) (hρ : ∀ l, (ρ l).Perm l) (a : Asg) (ids ts : List Nat)
+    (hts : ts.Nodup) (hr : ∀ t id, ∀ x ∈ a t id, InInt32 x) (t id : Nat) :
+    delivered ρ a ids ts t id = if id ∈ ids ∧ t ∈ ts then a t id else [] :=
+  delivered_eq ρ hρ a ids ts hts hr t id
+
+/-- whatever an assignment with cover + only-subscribers hands out are listed partition ids -/
+theorem assigned_are_listed (ms : List Member) (ps : List Part) (a : Asg) (t : Nat)
+    (hg : GoodAt ms ps a t) (ho : ∀ id, OnlySubscribersAt ms a t id) (id : Nat) (x : Int) (hx : x ∈ a t id) :
+    ∃ p ∈ ps, p.id = x := by
+  by_cases hsub : ∃ m ∈ subscribers ms t, m.id = id
+  · obtain ⟨m, hm, hmid⟩ := hsub
+    have hc := hg.1 (List.ne_nil_of_mem hm)
+    have : x ∈ (subscribers ms t).flatMap (fun m => a t m.id) :=
+      List.mem_flatMap.mpr ⟨m, hm, by rw [hmid]; exact hx⟩
+    have := hc.mem_iff.mp this
+    unfold partsOf at this
+    obtain ⟨p, hp, hpx⟩ := List.mem_map.mp this
+    exact ⟨p, (List.mem_filter.mp hp).1, hpx⟩
+  · have := ho id (fun m hm e => hsub ⟨m, hm, e⟩)
+    rw [this] at hx; simp at hx
+
+/-- hence C14 (cover, balance, only subscribers) of the balancer's result carries over to what the members receive -/
+theorem glue_good (ρ : TopicMap → TopicMap) (hρ : ∀ l, (ρ l).Perm l) (ms : List Member) (ps : List Part) (a : Asg)
+    (ids ts : List Nat) (hts : ts.Nodup) (hr : ∀ p ∈ ps, InInt32 p.id)
+    (hids : ∀ m ∈ ms, m.id ∈ ids)
+    (hg : ∀ t, GoodAt ms ps a t) (ho : ∀ t id, OnlySubscribersAt ms a t id) (t : Nat) (ht : t ∈ ts) :
+    GoodAt ms ps (delivered ρ a ids ts) t ∧ ∀ id, OnlySubscribersAt ms (delivered ρ a ids ts) t id := by
+  have hr' : ∀ t id, ∀ x ∈ a t id, InInt32 x := by
+    intro t' id x hx
+    obtain ⟨p, hp, hpx⟩ := assigned_are_listed ms ps a t' (hg t') (ho t') id x hx
+    rw [← hpx]; exact hr p hp
+  have hsame : ∀ m ∈ subscribers ms t, delivered ρ a ids ts t m.id = a t m.id := by
+    intro m hm
+    rw [glue_delivers ρ hρ a ids ts hts hr']
+    simp [hids m (List.mem_filter.mp hm).1, ht]
+  refine ⟨⟨?_, ?_⟩, ?_⟩
+  · intro hs
+    unfold CoverAt
+    rw [flatMap_congr' _ hsame]
+    exact (hg t).1 hs
+  · intro m₁ h₁ m₂ h₂
+    rw [hsame m₁ h₁, hsame m₂ h₂]
+    exact (hg t).2 m₁ h₁ m₂ h₂
+  · intro id hid
+    rw [glue_delivers ρ hρ a ids ts hts hr']
+    split
+    · exact ho t id hid
+    · rfl
+
+/-- Range, RoundRobin and RackAffinity through the glue: C14 holds of what the members receive -/
+theorem range_delivered (ρ : TopicMap → TopicMap) (hρ : ∀ l, (ρ l).Perm l) (ms : List Member) (ps : List Part)
+    (h : WellFormed ms) (ids ts : List Nat) (hts : ts.Nodup) (hr : ∀ p ∈ ps, InInt32 p.id)
+    (hids : ∀ m ∈ ms, m.id ∈ ids) (t : Nat) (ht : t ∈ ts) :
+    GoodAt ms ps (delivered ρ (rangeAssign ms ps) ids ts) t ∧
+      ∀ id, OnlySubscribersAt ms (delivered ρ (rangeAssign ms ps) ids ts) t id :=
+  glue_good ρ hρ ms ps _ ids ts hts hr hids (fun t => ⟨range_cover ms ps h t, range_balanced ms ps h t⟩)
+    (fun t => range_only_subscribers ms ps h t) t ht
+
+theorem rr_delivered (ρ : TopicMap → TopicMap) (hρ : ∀ l, (ρ l).Perm l) (ms : List Member) (ps : List Part)
+    (h : WellFormed ms) (ids ts : List Nat) (hts : ts.Nodup) (hr : ∀ p ∈ ps, InInt32 p.id)
+    (hids : ∀ m ∈ ms, m.id ∈ ids) (t : Nat) (ht : t ∈ ts) :
+    GoodAt ms ps (delivered ρ (rrAssign ms ps) ids ts) t ∧
+      ∀ id, OnlySubscribersAt ms (delivered ρ (rrAssign ms ps) ids ts) t id :=
+  glue_good ρ hρ ms ps _ ids ts hts hr hids (fun t => ⟨rr_cover ms ps h t, rr_balanced ms ps h t⟩)
+    (fun t => rr_only_subscribers ms ps h t) t ht
+
+theorem rack_delivered (ρ : TopicMap → TopicMap) (hρ : ∀ l, (ρ l).Perm l) (ms : List Member) (ps : List Part)
+    (σ₁ σ₂ : Nat → List Nat) (h : WellFormed ms) (h1 : ∀ t, IterOrder ps t (σ₁ t)) (h2 : ∀ t, IterOrder ps t (σ₂ t))
+    (ids ts : List Nat) (hts : ts.Nodup) (hr : ∀ p ∈ ps, InInt32 p.id)
+    (hids : ∀ m ∈ ms, m.id ∈ ids) (t : Nat) (ht : t ∈ ts) :
+    GoodAt ms ps (delivered ρ (rackAsg ms ps σ₁ σ₂) ids ts) t ∧
+      ∀ id, OnlySubscribersAt ms (delivered ρ (rackAsg ms ps σ₁ σ₂) ids ts) t id :=
+  glue_good ρ hρ ms ps _ ids ts hts hr hids
+    (fun t => ⟨rack_cover ms ps σ₁ σ₂ h t (h1 t) (h2 t), rack_balanced ms ps σ₁ σ₂ h t (h1 t) (h2 t)⟩)
+    (fun t => rack_only_subscribers ms ps σ₁ σ₂ h t (h1 t) (h2 t)) t ht
+
+end Glue
 
 end KV.C14
